@@ -55,13 +55,17 @@ Qed.
 
 Theorem is_julian_ok c j : Date_is_julian (date_of c j) = Ret (is_old c j).
 Proof.
-  unfold Date_is_julian, Date_julian_day_number. destruct (date_of_fields c j) as (Fc & _ & _ & Fj & _). rewrite Fc.
-  destruct c; cbn [cal_of Calendar_JULIAN Calendar_GREGORIAN Calendar_f_0 is_old bind]; try reflexivity. rewrite Fj. reflexivity.
+  unfold Date_is_julian, Date_julian_day_number. destruct (date_of_fields c j) as (Fc & _ & _ & Fj & _). rewrite ?Fc, ?Fj.
+  destruct c; cbn [cal_of Calendar_JULIAN Calendar_GREGORIAN Calendar_f_0 is_old bind]; rewrite ?Fj; cbn [bind];
+    first [reflexivity | f_equal; lia].
 Qed.
 Theorem is_gregorian_ok c j : Date_is_gregorian (date_of c j) = Ret (negb (is_old c j)).
 Proof.
-  unfold Date_is_gregorian, Date_julian_day_number. destruct (date_of_fields c j) as (Fc & _ & _ & Fj & _). rewrite Fc.
-  destruct c; cbn [cal_of Calendar_JULIAN Calendar_GREGORIAN Calendar_f_0 is_old bind negb]; try reflexivity. rewrite Fj. f_equal. lia.
+  unfold Date_is_gregorian.
+  first [ rewrite is_julian_ok; cbn [bind]; reflexivity
+        | unfold Date_julian_day_number; destruct (date_of_fields c j) as (Fc & _ & _ & Fj & _); rewrite ?Fc, ?Fj;
+          destruct c; cbn [cal_of Calendar_JULIAN Calendar_GREGORIAN Calendar_f_0 is_old bind negb]; rewrite ?Fj; cbn [bind];
+          first [reflexivity | f_equal; lia] ].
 Qed.
 
 Theorem convert_to_ok c c' j : ValidCal c' -> in_i32 j ->
